@@ -258,7 +258,8 @@ class CPreProcessor:
         """Get next token"""
         token = self.files[-1].next_token()
         if token and expand:
-            while self.expand(token):
+            # Note that a macro may expand into nothing at the end of input:
+            while token and self.expand(token):
                 token = self.next_token(expand=False)
 
         if self.verbose:
